@@ -4,7 +4,9 @@ SPEC = {
              {"kind": "nf5", "quick": 6000, "thorough": 600000},
              {"kind": "sflow", "quick": 15000, "thorough": 1200000},
              {"kind": "dissect", "quick": 8000, "thorough": 600000},
-             {"kind": "json", "quick": 5000, "thorough": 400000}],
+             {"kind": "json", "quick": 5000, "thorough": 400000},
+             # the real worker pools of all four protocols under concurrent load incl. unchanged template refreshes: a crash of any worker goroutine kills the run
+             {"kind": "pipeline", "quick": 48, "thorough": 1600, "runner": {"pkg": "./vflow", "test": "TestVerifPipeline", "race": False}}],
     "rule": "the malformed-heavy streams of all four protocols: sessions of 1..8 datagrams over several exporter address forms with "
             "hostile templates in force (zero-length fields, zero fields, reserved ids, 65535 markers, length fields 0/boundary/0xffff, "
             "truncation, bit flips, trailing garbage), each datagram decoded AND marshalled by the real code under recover(), a watchdog "
